@@ -205,7 +205,11 @@ func (c17) Run(ts *tape.Set, tier Tier) *Result {
 		sc.Node, sc.Spec = "file", spec.String()
 		res.probe("file-node")
 	} else {
-		spec := gen.DrawDirSpec(shape, gen.DirOpts{MaxN: 120})
+		maxN := 120
+		if tier == Thorough {
+			maxN = 400
+		}
+		spec := gen.DrawDirSpec(shape, gen.DirOpts{MaxN: maxN})
 		r, entries, err := gen.WriteShardedDir(st, spec)
 		if err != nil {
 			res.Skipped, res.SkipReason = true, err.Error()
